@@ -38,6 +38,15 @@ dispatcher.py:203-227, 279-320), one step per primitive as well:
   uRelease     end of the `with moduleobj.updateLock` block
   dRelease     end of `handle_request`
 
+`change` and `read` requests (`handle_request` → `handle_change` / `handle_read` → `_setParameterValue` /
+`_getParameterValue` → write / read wrapper) are programs over the same primitives (`changeOps`, `readReqOps`):
+
+  reqAcquire k `with self._lock:` in `handle_request(conn, msg)` — `k` is the connection that sent the request; NO step looks
+               at it (the handlers of these requests ignore `conn`; the fan-out `listeners` depends on the subscriptions only)
+  accAcquire   `with moduleobj.accessLock:` in `_setParameterValue`, and again (RLock, `adepth`) in the wrapper
+  announce …   every call of the funnel the wrapper makes, and every assignment made by the body of the driver method
+  accRelease, reqRelease
+
 `act k p` = connection `k` is selected by `broadcast_event` for messages of parameter `p` (general activation, module or
 parameter subscription — one module is modelled, so a subscription is a set of its parameters).  `snapped k p` (ghost) =
 `k` has been sent a snapshot message for `p` during the run.  Callbacks (`paramCallbacks`) are not modelled: the funnel is not re-entered,
